@@ -39,7 +39,12 @@ MANIFEST = dict(
     technique="Lean 4 proof by induction over the loader table with a same-data invariant + differential correspondence + corpus mutation oracle",
     design_ref="DESIGN.md section 4 C11",
 )
-REQUIRED = []   # filled below once the property file exists
+REQUIRED = ["Xmp.TestLoad." + n for n in (
+    "C11_agree", "C11_agree_wrappers", "C11_agree_needs_nonpos", "C11_strings_failure", "C11_strings_success",
+    "C11_strings_success_partial", "C11_strings_counterexample", "C11_strings_wrapper_counterexample",
+    "C11_strings_wrappers_partial", "C11_title", "C11_title_buffers", "C11_title_raw", "C11_title_exact",
+    "C11_no_side_effect", "C11_no_leak", "C11_no_close_mem_cb", "C11_codes_distinct", "C11_prepare_scan_codes",
+    "C11_table_names")]
 
 GARB_BUF = 0xDD
 GARB_PW = 0xEE
@@ -140,6 +145,7 @@ def compare_case(q, a, m, stats):
 
 PWNAMES = set()
 PWUNTITLED = set()
+PW_TITLE_INIT = False
 
 
 def run_corr_shard(args):
@@ -214,12 +220,20 @@ def type_key(t):
     return w[0] if w else "none"
 
 
-def title_signature(ftype, uninit=False):
-    if ftype in PWNAMES:
-        if uninit or ftype in PWUNTITLED:
-            return "title:prowizard:uninit"
-        return "title:prowizard:" + type_key(ftype)
-    return "title:%s%s" % (type_key(ftype), ":uninit" if uninit else "")
+def title_signature(ftype, uninit=False, test_title=b"", load_title=b""):
+    """Signature of a title finding, keyed by cause where the cause is known, else by format."""
+    pw = ftype in PWNAMES
+    if uninit:
+        # one defect each: pw_check's local title[21] / test_module's local buf[XMP_NAME_SIZE] are copied
+        # to the caller although the detector / the loader's test() never wrote them
+        return "title:prowizard:uninit" if pw else "title:test_module:uninit"
+    if pw and not PW_TITLE_INIT and ftype in PWUNTITLED:
+        return "title:prowizard:uninit"
+    if pw and len(test_title) == 20 and len(load_title) > 20:
+        # pw_load prints mh.name (20 bytes, no terminator) with "%s": the loaded title runs into the
+        # first instrument name
+        return "title:prowizard:name-overrun"
+    return ("title:prowizard:" if pw else "title:") + type_key(ftype)
 
 
 def run_oracle_shard(args):
@@ -312,7 +326,7 @@ def judge_files(ck, files, exe_name, stats, msan=False):
                 ck.violation(sig, rp, "%s [%s] %s pair: %s %s (type %s)" % (short, variant, pair, w[3], w[4], ft.decode("latin-1")))
             elif kind == "strings":
                 if w[4] == "not-empty":
-                    sig = "strings:not-empty:%s:%s" % (pair, w[3])
+                    sig = "strings:not-reset:%s" % w[3]
                     ck.violation(sig, rp, "%s [%s] %s test failed (%s) but name/type were not emptied (%s)" % (short, variant, pair, w[3], " ".join(w[5:])))
                 else:
                     ft = cstr(hexb(w[5]))
@@ -344,7 +358,7 @@ def judge_files(ck, files, exe_name, stats, msan=False):
                 stats["title_pairs_differ_bytes"] += 1
             if verdict.get((th, lh), True):
                 continue
-            ck.violation(title_signature(ft), replay_obj(exe_name, fname, variant, pair),
+            ck.violation(title_signature(ft, False, hexb(th), hexb(lh)), replay_obj(exe_name, fname, variant, pair),
                          "%s [%s] %s: test title %r does not match loaded title %r (type '%s')" % (
                              short, variant, pair, hexb(th), hexb(lh), ft.decode("latin-1")))
         for pl in f["P"]:
@@ -370,10 +384,8 @@ def oracle(ck, scratch):
     bystander = os.path.join(vlib.REPO, "test", "test.xm")
     files = vlib.corpus_files()
     if quick:
-        small = [f for f in files if os.path.getsize(f) < 300000]
-        ck.rng.shuffle(small)
-        files = sorted(small[:150])
-        nmut, maxsize = 5, 150000
+        files = [f for f in files if os.path.getsize(f) < 1000000]
+        nmut, maxsize = 3, 150000
     else:
         nmut, maxsize = 24, 400000
     stats = {"pairs": 0, "mutated_pairs": 0, "by_pair": {}, "rc_table": {}, "formats": {}, "container_variants": 0,
@@ -397,7 +409,7 @@ def oracle(ck, scratch):
         ck.note("msan", "unavailable: " + str(e)[:200])
         exem = None
     if exem:
-        mfiles = [f for f in order if os.path.getsize(f) < (300000 if quick else 2000000)]
+        mfiles = [f for f in order if os.path.getsize(f) < (1000000 if quick else 4000000)]
         shards = [(exem, ck.seed, 1 if quick else 3, maxsize, os.path.join(scratch, "m%d" % i), bystander, mfiles[i::nsh]) for i in range(nsh)]
         shards = [s for s in shards if s[6]]
         for (rc, out, err), sh in zip(vlib.pmap(run_oracle_shard, shards), shards):
@@ -412,10 +424,11 @@ def oracle(ck, scratch):
 
 
 def run(ck):
-    global PWNAMES, PWUNTITLED
+    global PWNAMES, PWUNTITLED, PW_TITLE_INIT
     g = ck.gen(gen_c11.generate)
     PWNAMES = {n.encode() for n in g["pwnames"]}
     PWUNTITLED = {n.encode() for n in g["pw_untitled"]}
+    PW_TITLE_INIT = bool(g["pw_title_init"])
     ck.note("generated", {k: g[k] for k in ("changed", "n_loaders", "n_pw", "prepare_returns", "pw_title_init")})
     ck.proofs(["XmpProps.C11"], required=REQUIRED, drivers=["drv_c11"])
     exe = vlib.build_harness("c11_strings", ["c11_strings.c", "c11_table.c"])
